@@ -718,6 +718,9 @@ class FermionicArray(AbelianArray):
         axis : int
             The axis to unfuse.
         """
+        if axis < 0:
+            axis += self.ndim
+
         index = self.indices[axis]
 
         if index.dual:
